@@ -278,6 +278,27 @@ class CallListerVisitor(ast.NodeVisitor):
 
     visit_Lambda = visit_FunctionDef
 
+    def visit_comprehension(self, node):
+        # a `for` clause evaluates its iterable, binds its target, then tests
+        self.visit(node.iter)
+        self.visit(node.target)
+        for cond in node.ifs:
+            self.visit(cond)
+
+    def visit_ListComp(self, node):
+        # the `for` clauses run before the element expression does
+        for generator in node.generators:
+            self.visit(generator)
+        self.visit(node.elt)
+
+    visit_SetComp = visit_GeneratorExp = visit_ListComp
+
+    def visit_DictComp(self, node):
+        for generator in node.generators:
+            self.visit(generator)
+        self.visit(node.key)
+        self.visit(node.value)
+
     def visit_Nonlocal(self, node):
         for name in node.names:
             self.namespace.add_nonlocal(name)
